@@ -330,12 +330,8 @@ impl Mempool {
         self.new_tx_added = false;
         self.routing_work_in_mempool = 0;
 
-        for tx in &block.transactions {
-            for input in &tx.from {
-                let utxo_key = input.utxoset_key;
-                self.utxo_map.remove(&utxo_key);
-            }
-        }
+        // the pool has been drained: no reservation is left to keep
+        self.rebuild_utxo_map();
 
         Some(block)
     }
